@@ -135,6 +135,7 @@ class SymEx:
         self._gcache = {}
         self._defs_in_frame = {}
         self.try_lookup = 0
+        self._fresh_self = set()
         self.try_value = 0
         self.closures = {}
         self.dyn = {}
@@ -185,6 +186,10 @@ class SymEx:
             # tables the constructor computes once and nobody rewrites (a timetable, a rate table) are known when a method is analysed
             for loc_, val_ in self._ctor_tables(dyn or fn.cls).items():
                 st.heap.setdefault(loc_, val_)
+        if not self.frames:
+            self._fresh_self = set()
+        if not self.frames and fn.name == '__init__' and fn.cls is not None and env.get('self') == ('var', 'self') and state is None:
+            self._fresh_self.add(('var', 'self'))
         outer_env = st.env
         if closure_env is not None:
             env = dict({k: v for k, v in closure_env.items() if k not in env}, **env)
@@ -1547,6 +1552,25 @@ class SymEx:
                     continue
                 out.append((x, k))
                 continue
+            if isinstance(e.ctx, ast.Load) and (b in self._fresh_self):
+                # an object under construction has no instance attribute that was not assigned on this path: the read finds the class-level default
+                c_ = self.M.cls(b[1]) if b[0] == 'obj' else (self.dyn.get(len(self.frames)) or self.fn.cls)
+                cv = None
+                for k_ in (c_.mro() if c_ is not None else ()):
+                    if e.attr in k_.class_attrs and k_.lookup(e.attr) is None:
+                        self.frames.append(self.M.module_func(k_.mod))
+                        try:
+                            r_ = self.ev(k_.class_attrs[e.attr], State())
+                        except Undecided:
+                            r_ = []
+                        finally:
+                            self.frames.pop()
+                        if len(r_) == 1 and r_[0][1][0] in ('num', 'str', 'const'):
+                            cv = r_[0][1]
+                        break
+                if cv is not None:
+                    out.append((x, cv))
+                    continue
             props = self.M.property_targets(self.fn, e, self.tenv()) if isinstance(e.ctx, ast.Load) else []
             dyn = self.dyn.get(len(self.frames))
             if dyn is not None and isinstance(e.value, ast.Name) and e.value.id == 'self' and b == x.env.get('self') and isinstance(e.ctx, ast.Load):
@@ -1817,7 +1841,11 @@ class SymEx:
         obj = ('obj', cls.name, next(self.uid))
         if init is None:
             return [(st, ('new', cls.name, ()))]
-        res = self.inline(init, bound, obj, st, node)
+        self._fresh_self.add(obj)
+        try:
+            res = self.inline(init, bound, obj, st, node)
+        finally:
+            self._fresh_self.discard(obj)
         out = []
         for s, _ in res:
             fields = []
@@ -2060,7 +2088,8 @@ class SymEx:
             if recv is not None and recv[0] == 'ext':
                 name = recv[1] + '.' + f.attr
                 name = T.API_CLASS.get(name, name)
-                if name == 'DICT.fromkeys' and 1 <= len(args) <= 2 and not kws:
+                if name == 'DICT.fromkeys' and 1 <= len(args) <= 2 and not kws and (len(args) == 1 or args[1][0] in ('num', 'str', 'const', 'var', 'attr', 'rat')):
+                    # (an immutable value: every key may share it; a container built in the call would be ONE object under all keys - kept as the call it is)
                     bv = ('bv', self.bv_depth)
                     return [(st, ('comp', 'dict', ('tuple', (bv, args[1] if len(args) == 2 else NONE)), (((bv,), args[0], ()),)))]
                 res = ('call', ('ext', name), tuple(args), kws)
